@@ -184,6 +184,19 @@ impl<T: FftNum> FftPlannerAvx<T> {
         self.plan_fft(len, FftDirection::Inverse)
     }
 
+    /// Verification hook: the plan for `len` as text, without constructing anything
+    #[cfg(rustfft_verif)]
+    #[doc(hidden)]
+    pub fn verif_plan_only(&mut self, len: usize, direction: FftDirection) -> String {
+        format!("{:?}", self.internal_planner.debug_plan_fft(len, direction))
+    }
+    /// Verification hook: the (len, direction) keys of the instance cache, sorted
+    #[cfg(rustfft_verif)]
+    #[doc(hidden)]
+    pub fn verif_cache_keys(&self) -> Vec<(usize, FftDirection)> {
+        self.internal_planner.verif_cache_keys()
+    }
+
     /// Returns a FFT plan without constructing it
     #[allow(unused)]
     pub(crate) fn debug_plan_fft(&self, len: usize, direction: FftDirection) -> MixedRadixPlan {
@@ -194,6 +207,8 @@ impl<T: FftNum> FftPlannerAvx<T> {
 trait AvxPlannerInternalAPI<T: FftNum>: Send + Sync {
     fn plan_and_construct_fft(&mut self, len: usize, direction: FftDirection) -> Arc<dyn Fft<T>>;
     fn debug_plan_fft(&self, len: usize, direction: FftDirection) -> MixedRadixPlan;
+    #[cfg(rustfft_verif)]
+    fn verif_cache_keys(&self) -> Vec<(usize, FftDirection)>;
 }
 
 struct AvxPlannerInternal<A: AvxNum, T: FftNum> {
@@ -205,6 +220,8 @@ impl<T: FftNum> AvxPlannerInternalAPI<T> for AvxPlannerInternal<f32, T> {
     fn plan_and_construct_fft(&mut self, len: usize, direction: FftDirection) -> Arc<dyn Fft<T>> {
         // Step 1: Create a plan for this FFT length.
         let plan = self.plan_fft(len, direction, Self::plan_mixed_radix_base);
+        #[cfg(rustfft_verif)]
+        crate::verif_hooks::note_plan(|| format!("avx len={} {:?}", len, plan));
 
         // Step 2: Construct the plan. If the base is rader's algorithm or bluestein's algorithm, this may call self.plan_and_construct_fft recursively!
         self.construct_plan(
@@ -216,12 +233,18 @@ impl<T: FftNum> AvxPlannerInternalAPI<T> for AvxPlannerInternal<f32, T> {
     }
     fn debug_plan_fft(&self, len: usize, direction: FftDirection) -> MixedRadixPlan {
         self.plan_fft(len, direction, Self::plan_mixed_radix_base)
+    }
+    #[cfg(rustfft_verif)]
+    fn verif_cache_keys(&self) -> Vec<(usize, FftDirection)> {
+        self.cache.verif_keys()
     }
 }
 impl<T: FftNum> AvxPlannerInternalAPI<T> for AvxPlannerInternal<f64, T> {
     fn plan_and_construct_fft(&mut self, len: usize, direction: FftDirection) -> Arc<dyn Fft<T>> {
         // Step 1: Create a plan for this FFT length.
         let plan = self.plan_fft(len, direction, Self::plan_mixed_radix_base);
+        #[cfg(rustfft_verif)]
+        crate::verif_hooks::note_plan(|| format!("avx len={} {:?}", len, plan));
 
         // Step 2: Construct the plan. If the base is rader's algorithm or bluestein's algorithm, this may call self.plan_and_construct_fft recursively!
         self.construct_plan(
@@ -233,6 +256,10 @@ impl<T: FftNum> AvxPlannerInternalAPI<T> for AvxPlannerInternal<f64, T> {
     }
     fn debug_plan_fft(&self, len: usize, direction: FftDirection) -> MixedRadixPlan {
         self.plan_fft(len, direction, Self::plan_mixed_radix_base)
+    }
+    #[cfg(rustfft_verif)]
+    fn verif_cache_keys(&self) -> Vec<(usize, FftDirection)> {
+        self.cache.verif_keys()
     }
 }
 
